@@ -1563,8 +1563,16 @@ def gen_hist(rng, nsteps):
                               f"setslice {x} {om(lo)} {om(hi)} {1 if every else 0} {v_model(e)}", [x]))
             else:
                 op = rng.choice(ops)
-                opnd = rng.choice([I(1), I(2), I(300), R(1, 2), S("a"), I(5)])
-                steps.append((f"zz{x}[{int_src(i)}] {OPS[op]}= {v_src(opnd)}", f"opindex {x} {i} {op} {v_model(opnd)}", [x]))
+                opnd = rng.choice([I(1), I(2), I(300), R(1, 2), S("a"), I(5), I(10)])
+                kk = rng.random()
+                if kk < 0.4:
+                    steps.append((f"zz{x}[{int_src(i)}] {OPS[op]}= {v_src(opnd)}", f"opindex {x} {i} {op} {v_model(opnd)}", [x]))
+                elif kk < 0.6:
+                    steps.append((f"every zz{x}[{int_src(i)}] {OPS[op]}= {v_src(opnd)}", f"everyopindex {x} {i} {op} {v_model(opnd)}", [x]))
+                else:
+                    lo, hi = rng.choice([None, 0, 1, -2]), rng.choice([None, 2, -1, 9, 0])
+                    steps.append((f"every zz{x}[{ob(lo)}:{ob(hi)}] {OPS[op]}= {v_src(opnd)}",
+                                  f"everyopslice {x} {om(lo)} {om(hi)} {op} {v_model(opnd)}", [x]))
         elif r < 0.42:
             steps.append((f"zz{x} = {v_src(v)}", f"assign var {x} {v_model(v)}", [x]))
         elif r < 0.52:
@@ -1597,12 +1605,101 @@ def gen_hist(rng, nsteps):
             steps.append((f"every zz{x} {OPS[op]}= {v_src(opnd)}", f"everyop {x} {op} {v_model(opnd)}", [x]))
         else:
             steps.append((f"swap zz{x}, zz{y}", f"swap {x} {y}", [x, y]))
-    read = "[" + ", ".join(f'try zz{x} catch _ -> "?", try (zz{x} is {ty_src(tys[x] if tys[x] is not None else "anything")}) catch _ -> "e"' for x in names) + "]"
+    return mk_hist(tys, steps)
+
+
+def mk_hist(tys, steps):
+    read = "[" + ", ".join(f'try zz{x} catch _ -> "?", try (zz{x} is {ty_src(tys[x] if tys[x] is not None else "anything")}) catch _ -> "e"' for x in (0, 1, 2)) + "]"
     stmts = [PRELUDE]
     for src, _, _ in steps:
         stmts += [src, read]
     model = f"hist {len(steps)} " + " ".join(m for _, m, _ in steps)
-    return dict(kind="hist", tys=tys, steps=steps, stmts=stmts, model=model)
+    return dict(kind="hist", tys=tys, steps=[list(x) for x in steps], stmts=stmts, model=model)
+
+
+def decl_step(x, t, v):
+    if t is None:
+        return (f"zz{x} := {v_src(v)}", f"declare ann var {x} none {v_model(v)}", [])
+    return (f"zz{x}: {ty_src(t)} = {v_src(v)}", f"declare ann var {x} some type {ty_model(t)} {v_model(v)}", [])
+
+
+FIXED_INIT = {"anything": L(I(1), I(2), I(3)), ("sat", 1): L(I(1), I(2), I(3)), ("sat", 2): L(I(1), I(2)),
+              ("sat", 3): L(I(1), I(2), I(3)), ("sat", 4): L(I(1), I(2), I(3)), "list": L(I(1), I(2), I(3)),
+              "stream": T(I(1), I(2), I(3), I(4), I(5)), "vector": Vc(I(1), I(2), I(3)), "bytes": B(7, 8, 9),
+              "dict": D((I(0), I(2))), "int": I(1), "number": I(1), ("sat", 0): I(2)}
+FIXED_TYPES = ["nulltype", "int", "rational", "float", "number", "str", "list", "dict", "vector", "bytes", "stream", "func",
+               "type", "anything", "struct_instance", ("struct", 0), ("struct", 1),
+               ("sat", 0), ("sat", 1), ("sat", 2), ("sat", 3), ("sat", 4)]
+
+
+def conforms(t, v):
+    try:
+        return py_is_type(t, v)
+    except Incomparable:
+        return False
+
+
+def fixed_hists():
+    """deterministic block: every declared-type kind x every write form of Store.v, once with a value that
+    keeps the declared type and once with one that breaks it (or makes the operator/predicate raise)"""
+    out = []
+    allv = HIST_VALUES + FUNC_VALUES
+    def om(i):
+        return "_" if i is None else str(i)
+    def ob(i):
+        return "" if i is None else int_src(i)
+    for t in FIXED_TYPES:
+        init = FIXED_INIT.get(t) or next(v for v in allv if conforms(t, v))
+        keeps = [v for v in allv if conforms(t, v) and canon(v) != canon(init)][:1] or [init]
+        brks = [v for v in allv if not conforms(t, v)][:2]
+        vals = keeps + brks
+        forms = []
+        for v in vals:
+            forms.append((f"zz0 = {v_src(v)}", f"assign var 0 {v_model(v)}", [0]))
+            forms.append((f"every zz0 = {v_src(v)}", f"every 1 0 {v_model(v)}", [0]))
+            forms.append((f"every zz1, zz0 = {v_src(v)}", f"every 2 1 0 {v_model(v)}", [1, 0]))
+            forms.append((f"zz1, zz0 = 0, {v_src(v)}", f"assign seq 0 2 var 1 var 0 list 2 int 0 {v_model(v)}", [1, 0]))
+            forms.append((f"[zz0, ...zz1] = {v_src(L(v, I(0)))}", f"assign seq 1 2 var 0 splat var 1 {v_model(L(v, I(0)))}", [0, 1]))
+            forms.append((f"(zz0 .+ zz1) = {v_src(L(v))}", f"assign destr prepend 2 var 0 var 1 {v_model(L(v))}", [0, 1]))
+            forms.append(("swap zz0, zz1", "swap 0 1", [0, 1], v))   # zz1 is declared with v
+            forms.append(("swap zz1, zz0", "swap 1 0", [0, 1], v))
+        for op, opnd in ((0, I(1)), (0, F(1.5)), (0, S("a")), (2, I(5)), (2, R(1, 2)), (3, I(7)), (4, S("a")), (5, I(5)), (5, S("a")), (1, I(2 ** 70))):
+            if op in (3, 4) and t in ("func", "type"):
+                continue
+            forms.append((f"zz0 {OPS[op]}= {v_src(opnd)}", f"opassign 0 {op} {v_model(opnd)}", [0]))
+            forms.append((f"every zz0 {OPS[op]}= {v_src(opnd)}", f"everyop 0 {op} {v_model(opnd)}", [0]))
+        if init[0] in ("list", "stream", "vec", "bytes", "dict"):
+            for i in (0, -1, 7):
+                for e in (I(1), I(5), S("a"), I(300)):
+                    forms.append((f"zz0[{int_src(i)}] = {v_src(e)}", f"setindex 0 {i} {v_model(e)}", [0]))
+                for op, opnd in ((2, I(5)), (2, I(10)), (0, I(1)), (0, S("a")), (5, I(1))):
+                    forms.append((f"zz0[{int_src(i)}] {OPS[op]}= {v_src(opnd)}", f"opindex 0 {i} {op} {v_model(opnd)}", [0]))
+                    forms.append((f"every zz0[{int_src(i)}] {OPS[op]}= {v_src(opnd)}", f"everyopindex 0 {i} {op} {v_model(opnd)}", [0]))
+            for lo, hi in ((0, 2), (None, None), (1, None), (2, 1)):
+                if init[0] == "dict" and (lo, hi) != (None, None):
+                    continue
+                for e in (I(1), I(5), S("a")):
+                    forms.append((f"every zz0[{ob(lo)}:{ob(hi)}] = {v_src(e)}", f"setslice 0 {om(lo)} {om(hi)} 1 {v_model(e)}", [0]))
+                forms.append((f"zz0[{ob(lo)}:{ob(hi)}] = 1", f"setslice 0 {om(lo)} {om(hi)} 0 int 1", [0]))
+                if init[0] != "dict":
+                    for op, opnd in ((2, I(5)), (2, I(10)), (0, I(1)), (0, S("a")), (5, I(1))):
+                        forms.append((f"every zz0[{ob(lo)}:{ob(hi)}] {OPS[op]}= {v_src(opnd)}", f"everyopslice 0 {om(lo)} {om(hi)} {op} {v_model(opnd)}", [0]))
+        for fm in forms:
+            aux = fm[3] if len(fm) > 3 else I(0)
+            steps = [decl_step(0, t, init), decl_step(1, None, aux), decl_step(2, t, init), tuple(fm[:3])]
+            out.append(mk_hist([t, None, t], steps))
+    return out
+
+
+def corpus_hists():
+    """minimised past misses (seeded changes the generated tiers once failed to reach); always run"""
+    out = []
+    for f in sorted((common.ROOT / "corpus").glob("C12-*.json")):
+        d = json.loads(f.read_text())
+        if d.get("kind") == "hist":
+            tys = [tuple(t) if isinstance(t, list) else t for t in d["tys"]]
+            out.append(mk_hist(tys, [tuple(x) for x in d["steps"]]))
+    return out
 
 
 def evaluate_hists(ctx, hists, runner):
@@ -1716,7 +1813,7 @@ def run(ctx):
     conv_cases = gen_conv_cases()
     bad4, cstats = evaluate_conv(ctx, conv_cases)
     report(ctx, bad4)
-    hists = [gen_hist(ctx.rng, ctx.rng.randrange(5, 16)) for _ in range(ctx.n(320, 3000))]
+    hists = corpus_hists() + fixed_hists() + [gen_hist(ctx.rng, ctx.rng.randrange(5, 16)) for _ in range(ctx.n(320, 3000))]
     bad3, hstats = evaluate_hists(ctx, hists, runner)
     report(ctx, bad3)
     kinds = {}
